@@ -13,6 +13,15 @@ Verdict(r) == IF P18(Defs[r.d].cmd, r.words, r.i, r.obs) THEN "ok"
               ELSE IF "infer" \in Via(r) THEN "C18-candidates#KF-C18-2"
               ELSE IF Set(Ref(r).c, "args_conflicts_with_subcommands") /\ Ref(r).st.valid THEN "C18-candidates#KF-C18-3"
               ELSE IF (Set(Ref(r).c, "subcommand_precedence_over_arg") /\ Ref(r).st.ps.k # "done") \/ "precedence" \in Via(r) THEN "C18-candidates#KF-C18-4"
+              \* KF-C18-5: the level has the low-index-multiple shape (a multi-value positional followed by one more) and the
+              \* preceding word was a positional value: the parser's look-ahead would let a subcommand name follow, the engine
+              \* still counts the multi-value positional as collecting and offers no subcommand (only subcommands are missing)
+              ELSE IF "lowindex" \in Via(r) THEN "C18-candidates#KF-C18-5"     \* ... and everything below a subcommand entered that way
+              ELSE IF LowIndexShape(Ref(r).c) /\ Ref(r).st.valid /\ ~r.obs.panicked
+                      /\ (\A j \in 1..Len(r.obs.cands) : CandidateSound(Ref(r).c, Ref(r).st, r.words[r.i], r.obs.cands[j]))
+                      /\ (\A m \in MustIds(Ref(r).c, Ref(r).st, r.words[r.i]) :
+                             m.k = "command" \/ \E j \in 1..Len(r.obs.cands) : r.obs.cands[j].k = m.k /\ r.obs.cands[j].id = m.id)
+                   THEN "C18-candidates#KF-C18-5"
               ELSE "C18-candidates"
 Init == l = 1
 Next ==
